@@ -176,6 +176,20 @@ func init() {
 	})
 }
 
+func init() {
+	onlyBatch := "res=fam.prims+fam.strs+fam.byname+fam.bycolor+fam.cks+fam.prims.subs+fam.annotated"
+	_ = onlyBatch
+	reg(&PropSpec{
+		ID: "C16",
+		Batches: []Batch{
+			s4b("rpc", "keys=adv,byz=1,methods=batch", 25000, 1500000),
+			s4b("rpc", "keys=adv,byz=1,methods=batch,res=fam.cks", 10000, 600000),
+		},
+		Rule:   "as C02 restricted to batch_get / batch_update / batch_partial_update / batch_delete on every key type of the family (int64, string, string typeref, enum, complex key with params; string parent keys); key multisets are made adversarial (a duplicate under key equality — for complex keys a copy that differs only in params —, two complex keys in the same 32-bit FNV-1a bucket found by a birthday search, keys over the metacharacter alphabet) and the resource's reply may be Byzantine (one requested key dropped, or one unrequested key added to results or errors); every value unique. Distinct by (resource, method, mounting).",
+		Assume: append([]string{"a reply that attaches a value to the wrong (but requested) key cannot be told from a correct one by any client and is not generated"}, s4Assume...),
+	})
+}
+
 func joinNonEmpty(s ...string) string {
 	var o []string
 	for _, x := range s {
